@@ -215,6 +215,11 @@ func (p *ProjectionParser) makeProjection(s *Projection, q string, proj parse.Fi
 					// Create a new field for this new key.
 					field = s.addField(group, cfg.Key)
 					initField(field)
+					if field.order != nil && len(s.keys) > 0 {
+						// Every key projected so far is missing this
+						// field, so the missing value was observed first.
+						field.order[""] = 0
+					}
 					seen[cfg.Key] = field
 				}
 
@@ -505,8 +510,9 @@ func (p *Projection) internRow() Key {
 		}
 	}
 
-	// Update observation orders.
-	for _, field := range p.Fields() {
+	// Update observation orders. This includes the sub-fields of
+	// group fields like .config, which are ordered individually.
+	for _, field := range p.FlattenedFields() {
 		if field.order == nil {
 			// Not tracking observation order for this field.
 			continue
